@@ -34,3 +34,8 @@ PROBES = list(PROBES) + ["output-path-held-a-longer-file"]
 # dimensions added in seeded round 9
 PROBES = list(PROBES) + ["tuning-constant-lowered"]
 ASSUMPTIONS = list(ASSUMPTIONS) + ["module-level ALL-CAPS int constants >= 4096 of pure-Python sigpyproc modules are tuning thresholds: lowered to 257/1000/4099 in a quarter of the runs (also where bound as default arguments); the pinned tree has none"]
+
+# dimensions added in seeded round 10
+PROBES = [p for p in PROBES if p != "tuning-constant-lowered"] + ["one-write-of-more-than-2^24-samples"]
+RULE = RULE + (" Round 9/10: 0.2% of fil histories (1% thorough) are ONE cwrite of more than 2^24 samples; the product's free-text header strings are 0-700 characters long in 40% of the "
+               "scenarios (every header length up to ~1050 bytes); W4: in 5/8 of the runs one raw data write transfers at most 1-1000 bytes (never fires on the pinned tree: data go through tofile).")
